@@ -139,6 +139,10 @@ def oracle(c, o):
             if want != got:
                 v.append(("quote-figures-wrong", "step %d: quoted (close_records_stored, max_records, received_payment_count, "
                           "already stored) = %s, true values %s" % (i, got, want)))
+        if name == "crash" and post["pay"] != t.pays:
+            v.append(("payments-lost-across-restart", "step %d: %d payments had been received (%s) but the restarted store "
+                      "reports %d" % (i, t.pays, "clean restart: every background task had run" if pre["ntasks"] == 0
+                                      else "as flushed to the metrics file at the crash", post["pay"])))
         if name == "crash" and post["started"] != 0:
             v.append(("start-timestamp-not-kept", "step %d: after a clean restart the store's start time stamp is that of start %d" % (i, post["started"])))
     return dedupe(v)
@@ -207,8 +211,10 @@ def gen(ctx):
                     ops.append({"op": "quote", "k": rng.choice(order)})
                 if rng.random() < 0.3:
                     ops.append({"op": "quote", "k": rng.choice(order)})
-                if rng.random() < 0.2:
-                    ops += [{"op": "pay"}, {"op": "settle"}, {"op": "crash", "tears": []}, {"op": "quote", "k": k}]
+                if rng.random() < 0.3:
+                    # a burst of payments with no pause, then a clean restart: every one of them must survive
+                    ops += [{"op": "pay"}] * rng.choice([1, 2, 3, 7]) + [{"op": "settle"}, {"op": "crash", "tears": []}, {"op": "quote", "k": k}]
+                    ops += [{"op": "pay"}] * rng.choice([0, 2]) + [{"op": "quote", "k": k}]
             ops.append({"op": "settle"})
             return ops
         cases.append(fill_case(rng, cap, nk, extra, cache=rng.choice([1, 2, 25]), tag="fill-then-newcomers"))
